@@ -304,6 +304,11 @@ def decode_TEXT(value):
             # None) are ISO-8859-1 like the rest of the header.
             atom = atom.decode(charset or 'ISO-8859-1')
         decodedvalue += atom
+    # Codecs such as unicode_escape, raw_unicode_escape or utf-7 turn
+    # ASCII into lone surrogates.  That is not text: it cannot be encoded
+    # again (on an error page, in a log record).  Refuse it like any
+    # other undecodable encoded word (UnicodeEncodeError is a ValueError).
+    decodedvalue.encode('utf-8')
     return decodedvalue
 
 
